@@ -80,7 +80,7 @@ Proof.
   rewrite <- inj_fold_none. exact (proj2 (run_inv w W G ops _ _ _ lf (init_inv w G) E)).
 Qed.
 
-Ltac split_all H := repeat (apply andb_prop in H; let H' := fresh "I" in destruct H as [H H']).
+Ltac split_conj := repeat match goal with H : _ && _ = true |- _ => apply andb_prop in H; destruct H end.
 
 (* ---- key-share private keys survive ---- *)
 Theorem keys_survive : forall w ops, world_ok w = true -> w_golang w = false -> legal w ops = true ->
@@ -89,12 +89,17 @@ Theorem keys_survive : forall w ops, world_ok w = true -> w_golang w = false -> 
   (applied s = true -> w_tls13 w = true -> exists g, keys s = Some g /\ share s = Some g).
 Proof.
   intros w ops W G L s. destruct (final_inv w ops W G L) as [lf [_ H]]. fold s in H.
-  unfold invb in H. split_all H.
+  unfold invb in H. split_conj.
   split.
-  - intros St. rewrite St in *. cbn in *. split_all I10. exact I10.
-  - intros A T. rewrite A, T in I5. cbn in I5. apply andb_prop in I5. destruct I5 as [S K].
-    destruct (share s) as [g|]; [|discriminate]. destruct (keys s) as [k|]; [|discriminate].
-    cbn in K. apply N.eqb_eq in K. subst. eauto.
+  - intros St.
+    match goal with H : match status s with _ => _ end = true |- _ => rewrite St in H; cbn in H end.
+    split_conj. assumption.
+  - intros A T.
+    match goal with H : context [optN_eqb] |- _ => rewrite A, T in H; cbn in H end.
+    split_conj.
+    match goal with K : optN_eqb _ _ = true, S : is_some _ = true |- _ => revert K S end.
+    destruct (share s) as [g|], (keys s) as [k|]; cbn; intros K S; try discriminate.
+    apply N.eqb_eq in K. subst. eauto.
 Qed.
 
 (* ---- the injected session is what the hello and HandshakeState carry ---- *)
@@ -105,9 +110,12 @@ Theorem wire_ticket : forall w ops tk se, world_ok w = true -> w_golang w = fals
   hs_sess s = se /\ hs_ticket s = tk /\ exists p, raw s = Some ([tk], p).
 Proof.
   intros w ops tk se W G L J s St. destruct (final_inv w ops W G L) as [lf [_ H]]. fold s in H.
-  rewrite J in H. unfold invb in H. split_all H. rewrite St in I. cbn in I.
-  split_all I. apply N.eqb_eq in I. apply bytes_eqb_eq in I12.
-  destruct (raw s) as [[[|t [|? ?]] p]|]; try discriminate. apply bytes_eqb_eq in I13. subst. eauto.
+  rewrite J in H. unfold invb in H. rewrite St in H. cbn in H. split_conj.
+  match goal with A : (hs_sess s =? se) = true |- _ => apply N.eqb_eq in A; rewrite A end.
+  match goal with A : bytes_eqb (hs_ticket s) tk = true |- _ => apply bytes_eqb_eq in A; rewrite A end.
+  match goal with A : match raw s with _ => _ end = true |- _ => revert A end.
+  destruct (raw s) as [[[|t [|? ?]] p]|]; intros A; try discriminate.
+  apply bytes_eqb_eq in A. subst. eauto.
 Qed.
 
 Theorem wire_psk : forall w ops lb se, world_ok w = true -> w_golang w = false -> legal w ops = true ->
@@ -117,9 +125,11 @@ Theorem wire_psk : forall w ops lb se, world_ok w = true -> w_golang w = false -
   hs_sess s = se /\ exists t, raw s = Some (t, Some lb).
 Proof.
   intros w ops lb se W G L J s St. destruct (final_inv w ops W G L) as [lf [_ H]]. fold s in H.
-  rewrite J in H. unfold invb in H. split_all H. rewrite St in I. cbn in I.
-  split_all I. apply N.eqb_eq in I.
-  destruct (raw s) as [[t [d|]]|]; try discriminate. apply bytes_eqb_eq in I12. subst. eauto.
+  rewrite J in H. unfold invb in H. rewrite St in H. cbn in H. split_conj.
+  match goal with A : (hs_sess s =? se) = true |- _ => apply N.eqb_eq in A; rewrite A end.
+  match goal with A : match raw s with _ => _ end = true |- _ => revert A end.
+  destruct (raw s) as [[t [d|]]|]; intros A; try discriminate.
+  apply bytes_eqb_eq in A. subst. eauto.
 Qed.
 
 (* ---- a forbidden call after a legal history is rejected ---- *)
